@@ -529,3 +529,340 @@ Proof.
   unfold string_cmds. cbn [In]. tauto.
 Qed.
 
+
+(* ================================================================== *)
+(* 5. GETRANGE                                                          *)
+(* ================================================================== *)
+
+Theorem getrange_bounds_ok n s e a z :
+  getrange_bounds n s e = Some (a, z) -> 0 <= a /\ a <= z /\ z < n.
+Proof.
+  unfold getrange_bounds. intro H.
+  destruct ((s <? 0) && (e <? 0) && (e <? s)); [discriminate|].
+  revert H.
+  destruct (s <? 0) eqn:E1; destruct (e <? 0) eqn:E2;
+  repeat match goal with
+         | |- context [?x <? ?y] => let E := fresh "E" in destruct (x <? y) eqn:E
+         | |- context [?x <=? ?y] => let E := fresh "E" in destruct (x <=? y) eqn:E
+         | |- context [?x =? ?y] => let E := fresh "E" in destruct (x =? y) eqn:E
+         end; cbn [orb]; intro H; try discriminate; inversion H; subst;
+  repeat match goal with
+         | E : (_ <? _) = true |- _ => apply Z.ltb_lt in E
+         | E : (_ <? _) = false |- _ => apply Z.ltb_ge in E
+         | E : (_ <=? _) = true |- _ => apply Z.leb_le in E
+         | E : (_ <=? _) = false |- _ => apply Z.leb_gt in E
+         | E : (_ =? _) = true |- _ => apply Z.eqb_eq in E
+         | E : (_ =? _) = false |- _ => apply Z.eqb_neq in E
+         end; lia.
+Qed.
+Print Assumptions getrange_bounds_ok.
+
+Lemma slice_length {A} (l : list A) a z :
+  0 <= a -> a <= z -> z < Zlen l -> length (slice l a z) = Z.to_nat (z - a + 1).
+Proof.
+  unfold slice, Zlen. intros H0 H1 H2. rewrite firstn_length, skipn_length. lia.
+Qed.
+
+Lemma nth_skipn {A} (l : list A) n i dflt : nth i (skipn n l) dflt = nth (n + i) l dflt.
+Proof.
+  revert l. induction n as [|n IH]; intro l; [reflexivity|].
+  destruct l as [|x l]; cbn [skipn plus nth]; [destruct i; reflexivity|]. apply IH.
+Qed.
+
+Lemma nth_firstn_lt {A} (l : list A) n i dflt : (i < n)%nat -> nth i (firstn n l) dflt = nth i l dflt.
+Proof.
+  revert l i. induction n as [|n IH]; intros l i H; [lia|].
+  destruct l as [|x l]; [reflexivity|]. destruct i as [|i]; [reflexivity|].
+  cbn [firstn nth]. apply IH. lia.
+Qed.
+
+(* the slice is exactly bytes a .. z of the string *)
+Lemma slice_nth {A} (l : list A) a z i dflt :
+  0 <= a -> (i < Z.to_nat (z - a + 1))%nat ->
+  nth i (slice l a z) dflt = nth (Z.to_nat a + i) l dflt.
+Proof.
+  intros H0 Hi. unfold slice. rewrite nth_firstn_lt by exact Hi. apply nth_skipn.
+Qed.
+
+(* Redis 7 t_string.c getrangeCommand, transcribed statement by statement:
+     if (start < 0 && end < 0 && start > end) -> empty
+     if (start < 0) start = strlen+start;
+     if (end < 0) end = strlen+end;
+     if (start < 0) start = 0;
+     if (end < 0) end = 0;
+     if ((unsigned long long)end >= strlen) end = strlen-1;
+     if (start > end || strlen == 0) -> empty
+     else reply with the (end-start+1) bytes at str+start                     *)
+Definition redis_getrange (str : bytes) (start stop : Z) : bytes :=
+  let strlen := Z.of_nat (length str) in
+  if (start <? 0) && (stop <? 0) && (start >? stop) then [] else
+  let start := if start <? 0 then strlen + start else start in
+  let stop := if stop <? 0 then strlen + stop else stop in
+  let start := if start <? 0 then 0 else start in
+  let stop := if stop <? 0 then 0 else stop in
+  let stop := if stop >=? strlen then strlen - 1 else stop in
+  if (start >? stop) || (strlen =? 0) then []
+  else firstn (Z.to_nat (stop - start + 1)) (skipn (Z.to_nat start) str).
+
+Lemma getrange_model_eq_redis b s e :
+  match getrange_bounds (Zlen b) s e with
+  | Some (a, z) => slice b a z
+  | None => []
+  end = redis_getrange b s e.
+Proof.
+  unfold getrange_bounds, redis_getrange, slice, Zlen.
+  rewrite !Z.gtb_ltb, !Z.geb_leb.
+  destruct ((s <? 0) && (e <? 0) && (e <? s)); [reflexivity|]. cbv zeta.
+  match goal with |- context [(?x <? ?y) || ?c] => destruct ((x <? y) || c) end; reflexivity.
+Qed.
+
+Theorem cmd_getrange_redis now d k sb eb s e en b :
+  parse_i64 sb = Some s -> parse_i64 eb = Some e ->
+  lookup now d k = Some en -> e_val en = VStr b ->
+  cmd_getrange now d [k; sb; eb] = (d, RBulk (redis_getrange b s e)).
+Proof.
+  intros Hs He Hl Hv. unfold cmd_getrange, str_of. rewrite Hs, He, Hl, Hv.
+  rewrite <- getrange_model_eq_redis.
+  destruct (getrange_bounds (Zlen b) s e) as [[a z]|]; reflexivity.
+Qed.
+Print Assumptions cmd_getrange_redis.
+
+Theorem cmd_getrange_missing now d k sb eb s e :
+  parse_i64 sb = Some s -> parse_i64 eb = Some e -> lookup now d k = None ->
+  cmd_getrange now d [k; sb; eb] = (d, RBulk []).
+Proof. intros Hs He Hl. unfold cmd_getrange. rewrite Hs, He, Hl. reflexivity. Qed.
+
+(* a closed form of Redis' rule, independent of the order of the C statements:
+   the reply is the bytes with index in [max 0 (norm start), min (len-1) (max 0 (norm stop))],
+   except for Redis' early exit when both offsets are negative and start > stop *)
+Definition norm_idx (len i : Z) : Z := Z.max 0 (if i <? 0 then len + i else i).
+
+Theorem redis_getrange_closed b s e :
+  let len := Zlen b in
+  let lo := norm_idx len s in
+  let hi := Z.min (len - 1) (norm_idx len e) in
+  redis_getrange b s e =
+    if (s <? 0) && (e <? 0) && (e <? s) then []      (* e.g. GETRANGE k -100 -101 is empty, not byte 0 *)
+    else if lo <=? hi then slice b lo hi else [].
+Proof.
+  cbv zeta. unfold redis_getrange, norm_idx, slice, Zlen.
+  set (n := Z.of_nat (length b)). assert (Hn : 0 <= n) by (unfold n; lia).
+  rewrite !Z.gtb_ltb, !Z.geb_leb.
+  destruct (s <? 0) eqn:E1; destruct (e <? 0) eqn:E2; cbn [andb];
+  repeat match goal with
+         | |- context [?x <? ?y] => let E := fresh "E" in destruct (x <? y) eqn:E
+         | |- context [?x <=? ?y] => let E := fresh "E" in destruct (x <=? y) eqn:E
+         | |- context [?x =? ?y] => let E := fresh "E" in destruct (x =? y) eqn:E
+         end; cbn [orb];
+  repeat match goal with
+         | E : (_ <? _) = true |- _ => apply Z.ltb_lt in E
+         | E : (_ <? _) = false |- _ => apply Z.ltb_ge in E
+         | E : (_ <=? _) = true |- _ => apply Z.leb_le in E
+         | E : (_ <=? _) = false |- _ => apply Z.leb_gt in E
+         | E : (_ =? _) = true |- _ => apply Z.eqb_eq in E
+         | E : (_ =? _) = false |- _ => apply Z.eqb_neq in E
+         end; try reflexivity; try (exfalso; lia);
+  try (f_equal; [f_equal; lia | f_equal; f_equal; lia]).
+Qed.
+Print Assumptions redis_getrange_closed.
+
+Example getrange_ex :
+  let d := fst (cmd_set 0 empty_db [s2b "k"%string; s2b "This is a string"%string]) in
+  snd (cmd_getrange 0 d [s2b "k"%string; s2b "0"%string; s2b "3"%string]) = RBulk (s2b "This"%string) /\
+  snd (cmd_getrange 0 d [s2b "k"%string; s2b "-3"%string; s2b "-1"%string]) = RBulk (s2b "ing"%string) /\
+  snd (cmd_getrange 0 d [s2b "k"%string; s2b "10"%string; s2b "100"%string]) = RBulk (s2b "string"%string) /\
+  snd (cmd_getrange 0 d [s2b "k"%string; s2b "-1"%string; s2b "-5"%string]) = RBulk [] /\
+  snd (cmd_getrange 0 d [s2b "k"%string; s2b "-100"%string; s2b "-50"%string]) = RBulk (s2b "T"%string) /\
+  getrange_bounds 16 (-3) (-1) = Some (13, 15).
+Proof. vm_compute. repeat split. Qed.
+
+(* ================================================================== *)
+(* 1. decimal text: printing and (strict) parsing are inverse           *)
+(* ================================================================== *)
+
+Lemma is_digit_cases c : is_digit c = true ->
+  (c = 48 \/ c = 49 \/ c = 50 \/ c = 51 \/ c = 52 \/ c = 53 \/ c = 54 \/ c = 55 \/ c = 56 \/ c = 57)%N.
+Proof.
+  unfold is_digit. rewrite andb_true_iff, !N.leb_le. lia.
+Qed.
+
+Lemma parse_i64_digit c r : is_digit c = true ->
+  parse_i64 (c :: r) =
+  match parse_udec (c :: r) with
+  | Some n => if in_i64 (Z.of_N n) then Some (Z.of_N n) else None
+  | None => None
+  end.
+Proof.
+  intro H. apply is_digit_cases in H.
+  repeat (destruct H as [H|H]; [subst c; reflexivity|]). subst c; reflexivity.
+Qed.
+
+Lemma parse_i64_minus r :
+  parse_i64 (45%N :: r) =
+  match parse_udec r with
+  | Some n => if in_i64 (- Z.of_N n) then Some (- Z.of_N n) else None
+  | None => None
+  end.
+Proof. reflexivity. Qed.
+
+Lemma uint_bytes_head u : u <> Decimal.Nil ->
+  exists c r, uint_bytes u = c :: r /\ is_digit c = true.
+Proof.
+  destruct u; intro H; try congruence; cbn [uint_bytes]; eexists; eexists; split; reflexivity.
+Qed.
+
+Lemma parse_udec_uint_bytes u : u <> Decimal.Nil -> parse_udec (uint_bytes u) = Some (N.of_uint u).
+Proof.
+  intro H. destruct (uint_bytes_head u H) as [c [r [E _]]].
+  unfold parse_udec. rewrite bytes_uint_uint_bytes. rewrite E. reflexivity.
+Qed.
+
+Lemma parse_i64_uint_bytes u : u <> Decimal.Nil ->
+  parse_i64 (uint_bytes u) =
+  match parse_udec (uint_bytes u) with
+  | Some n => if in_i64 (Z.of_N n) then Some (Z.of_N n) else None
+  | None => None
+  end.
+Proof.
+  intro H. destruct (uint_bytes_head u H) as [c [r [E Hc]]]. rewrite E. apply parse_i64_digit. exact Hc.
+Qed.
+
+Theorem parse_i64_Z_to_bytes z : in_i64 z = true -> parse_i64 (Z_to_bytes z) = Some z.
+Proof.
+  intro Hz. destruct z as [|p|p].
+  - reflexivity.
+  - cbn [Z_to_bytes].
+    pose proof (Unsigned.to_uint_nonnil p) as Hn.
+    rewrite (parse_i64_uint_bytes _ Hn), (parse_udec_uint_bytes _ Hn).
+    unfold N.of_uint. rewrite Unsigned.of_to. cbn [Z.of_N]. rewrite Hz. reflexivity.
+  - cbn [Z_to_bytes]. rewrite parse_i64_minus.
+    rewrite (parse_udec_uint_bytes _ (Unsigned.to_uint_nonnil p)).
+    unfold N.of_uint. rewrite Unsigned.of_to. cbn [Z.of_N Z.opp]. rewrite Hz. reflexivity.
+Qed.
+Print Assumptions parse_i64_Z_to_bytes.
+
+Theorem strict_i64_Z_to_bytes z : in_i64 z = true -> strict_i64 (Z_to_bytes z) = Some z.
+Proof.
+  intro Hz. unfold strict_i64. rewrite (parse_i64_Z_to_bytes _ Hz), bytes_eqb_refl. reflexivity.
+Qed.
+Print Assumptions strict_i64_Z_to_bytes.
+
+Theorem strict_i64_sound b z : strict_i64 b = Some z -> b = Z_to_bytes z /\ in_i64 z = true.
+Proof.
+  intro H. split.
+  - apply strict_i64_parse in H. tauto.
+  - eapply strict_i64_in; eauto.
+Qed.
+Print Assumptions strict_i64_sound.
+
+(* so the strict reader accepts exactly the canonical decimal texts of int64 values *)
+Corollary strict_i64_iff b z : strict_i64 b = Some z <-> b = Z_to_bytes z /\ in_i64 z = true.
+Proof.
+  split; [apply strict_i64_sound|]. intros [-> Hz]. apply strict_i64_Z_to_bytes. exact Hz.
+Qed.
+
+(* a counter result can always be incremented again: INCR output is strict input *)
+Corollary incr_result_reparses v delta :
+  in_i64 (v + delta) = true -> strict_i64 (Z_to_bytes (v + delta)) = Some (v + delta).
+Proof. apply strict_i64_Z_to_bytes. Qed.
+
+Example decimal_ex :
+  strict_i64 (s2b "-9223372036854775808"%string) = Some min_i64 /\
+  strict_i64 (s2b "9223372036854775808"%string) = None /\
+  strict_i64 (s2b "+1"%string) = None /\ strict_i64 (s2b "01"%string) = None /\
+  strict_i64 (s2b "-0"%string) = None /\ strict_i64 [] = None /\
+  parse_i64 (s2b "+01"%string) = Some 1 /\
+  Z_to_bytes (-120) = s2b "-120"%string.
+Proof. vm_compute. repeat split. Qed.
+
+(* ================================================================== *)
+(* 6. SETRANGE: length and contents of the patched string               *)
+(* ================================================================== *)
+
+Lemma repeatN_length {A} (x : A) n : length (repeatN x n) = n.
+Proof. induction n as [|n IH]; cbn [repeatN length]; congruence. Qed.
+
+Lemma nth_repeatN {A} (x : A) n i : nth i (repeatN x n) x = x.
+Proof.
+  revert i. induction n as [|n IH]; intro i; cbn [repeatN]; destruct i; try reflexivity. apply IH.
+Qed.
+
+(* holds for empty v too; the command only calls it with v <> [] *)
+Theorem setrange_length old off v :
+  length (setrange_bytes old off v) = Nat.max (length old) (off + length v).
+Proof.
+  unfold setrange_bytes. rewrite !app_length, firstn_length, app_length, repeatN_length, skipn_length. lia.
+Qed.
+Print Assumptions setrange_length.
+
+(* before the offset: the old bytes, zero where the old string was shorter *)
+Theorem setrange_nth_before old off v i :
+  (i < off)%nat -> nth i (setrange_bytes old off v) 0%N = nth i old 0%N.
+Proof.
+  intro Hi. unfold setrange_bytes.
+  rewrite app_nth1 by (rewrite firstn_length, app_length, repeatN_length; lia).
+  rewrite nth_firstn_lt by exact Hi.
+  destruct (Nat.lt_ge_cases i (length old)) as [Hlt|Hge].
+  - apply app_nth1. exact Hlt.
+  - rewrite app_nth2 by exact Hge. rewrite nth_repeatN. symmetry. apply nth_overflow. exact Hge.
+Qed.
+
+Corollary setrange_zero_padding old off v i :
+  (length old <= i < off)%nat -> nth i (setrange_bytes old off v) 0%N = 0%N.
+Proof. intros [H1 H2]. rewrite setrange_nth_before by exact H2. apply nth_overflow. exact H1. Qed.
+
+(* inside the patch: the new bytes *)
+Theorem setrange_nth_patch old off v i :
+  (off <= i < off + length v)%nat -> nth i (setrange_bytes old off v) 0%N = nth (i - off) v 0%N.
+Proof.
+  intros [H1 H2]. unfold setrange_bytes.
+  assert (Hl : length (firstn off (old ++ repeatN 0%N (off - length old))) = off)
+    by (rewrite firstn_length, app_length, repeatN_length; lia).
+  rewrite app_nth2 by lia. rewrite Hl. apply app_nth1. lia.
+Qed.
+
+(* after the patch: the old tail *)
+Theorem setrange_nth_after old off v i :
+  (off + length v <= i)%nat -> nth i (setrange_bytes old off v) 0%N = nth i old 0%N.
+Proof.
+  intro H. unfold setrange_bytes.
+  assert (Hl : length (firstn off (old ++ repeatN 0%N (off - length old))) = off)
+    by (rewrite firstn_length, app_length, repeatN_length; lia).
+  rewrite app_nth2 by lia. rewrite Hl. rewrite app_nth2 by lia. rewrite nth_skipn. f_equal. lia.
+Qed.
+Print Assumptions setrange_nth_after.
+
+(* command level *)
+Theorem cmd_setrange_ok now d k ob off v e b :
+  parse_i64 ob = Some off -> 0 <= off -> v <> [] -> off + Zlen v <= max_str ->
+  lookup now d k = Some e -> e_val e = VStr b ->
+  cmd_setrange now d [k; ob; v] =
+    (put d k (VStr (setrange_bytes b (Z.to_nat off) v)) (e_exp e),
+     RInt (Z.max (Zlen b) (off + Zlen v))).
+Proof.
+  intros Hp H0 Hv Hm Hl Hb. unfold cmd_setrange, str_of. rewrite Hp, Hl, Hb.
+  destruct (off <? 0) eqn:E0; [apply Z.ltb_lt in E0; lia|].
+  destruct v as [|x v]; [congruence|].
+  destruct (max_str <? off + Zlen (x :: v)) eqn:E1; [apply Z.ltb_lt in E1; lia|].
+  cbv zeta. f_equal. f_equal. unfold Zlen. rewrite setrange_length. lia.
+Qed.
+Print Assumptions cmd_setrange_ok.
+
+Theorem cmd_setrange_missing now d k ob off v :
+  parse_i64 ob = Some off -> 0 <= off -> v <> [] -> off + Zlen v <= max_str ->
+  lookup now d k = None ->
+  cmd_setrange now d [k; ob; v] =
+    (put d k (VStr (setrange_bytes [] (Z.to_nat off) v)) None, RInt (off + Zlen v)).
+Proof.
+  intros Hp H0 Hv Hm Hl. unfold cmd_setrange. rewrite Hp, Hl.
+  destruct (off <? 0) eqn:E0; [apply Z.ltb_lt in E0; lia|].
+  destruct v as [|x v]; [congruence|].
+  destruct (max_str <? off + Zlen (x :: v)) eqn:E1; [apply Z.ltb_lt in E1; lia|].
+  cbv zeta. f_equal. f_equal. unfold Zlen. rewrite setrange_length. cbn [length]. lia.
+Qed.
+
+Example setrange_ex :
+  setrange_bytes (s2b "Hello World"%string) 6 (s2b "Redis"%string) = s2b "Hello Redis"%string /\
+  setrange_bytes (s2b "ab"%string) 4 (s2b "x"%string) = [97; 98; 0; 0; 120]%N /\
+  setrange_bytes (s2b "abcdef"%string) 1 (s2b "XY"%string) = s2b "aXYdef"%string.
+Proof. vm_compute. repeat split. Qed.
